@@ -100,8 +100,8 @@ func (w *World) blockTerm(n *TNode) string {
 }
 
 func (w *World) obsTerm(o Obs) string {
-	return fmt.Sprintf("(mkobs %s %s %d %d %s %d %d %d %d %s)", coqgen.Bool(o.Accepted), coqgen.Bool(o.Crashed), w.ids.H(o.Top), o.TopH,
-		u128(o.TopCD), o.Staked, o.Sum, o.NAccts, o.Commits, coqgen.Bool(o.NoTrace))
+	return fmt.Sprintf("(mkobs %s %s %d %d %s %d %d %d %d %s %s)", coqgen.Bool(o.Accepted), coqgen.Bool(o.Crashed), w.ids.H(o.Top), o.TopH,
+		u128(o.TopCD), o.Staked, o.Sum, o.NAccts, o.Commits, coqgen.Bool(o.NoTrace), coqgen.Bool(o.Skip))
 }
 
 func (w *World) dlgTerm(d *chaintype.Delegate) string {
